@@ -112,23 +112,36 @@ def inverse_circuit(tableau):
     tableau = canonical_form(tableau)
 
     # Hadamard block
+    # In the canonical form the first rows carry an X or Y pivot (the leftmost X entry of the row, absent from
+    # the X part of every other row) and the remaining rows are Z-only. Reduce the Z-only rows with pivots
+    # restricted to the columns that are not X pivots (they have full rank there because every Z-only generator
+    # commutes with all the X-type rows), then move each generator to the row of its pivot column.
+    n_x_rows = int(np.count_nonzero(np.any(tableau.x_matrix, axis=1)))
+    x_pivots = [int(np.nonzero(tableau.x_matrix[i])[0][0]) for i in range(n_x_rows)]
+    z_pivots = []
+    pivot[0] = n_x_rows
     for j in range(n_qubits):
+        if j in x_pivots:
+            continue
         pivot[1] = j
-        x_list, y_list, z_list = pauli_type_finder(
-            tableau.x_matrix, tableau.z_matrix, pivot
-        )
-        if x_list:
-            tableau = tab_row_swap(tableau, pivot[0], x_list[0])
-        elif y_list:
-            tableau = tab_row_swap(tableau, pivot[0], y_list[0])
-        elif z_list:
-            tableau = tab_row_swap(tableau, pivot[0], z_list[-1])
-            if np.any(tableau.x_matrix[pivot[0], j + 1 : n_qubits]) or np.any(
-                tableau.z_matrix[pivot[0], j + 1 : n_qubits]
-            ):
-                circuit_list.append(("H", j))
-                tableau = transform.hadamard_gate(tableau, j)
+        z_list = one_pauli_type_finder(tableau.x_matrix, tableau.z_matrix, pivot, "z")
+        assert z_list, "Invalid input. The generators are not independent."
+        tableau = tab_row_swap(tableau, pivot[0], z_list[0])
+        for row_m in range(n_x_rows, n_qubits):
+            if tableau.z_matrix[row_m, j] == 1 and row_m != pivot[0]:
+                tableau = tab_row_sum(tableau, pivot[0], row_m)
+        z_pivots.append(j)
         pivot[0] = pivot[0] + 1
+    order = np.argsort(x_pivots + z_pivots)
+    tableau.x_matrix = tableau.x_matrix[order]
+    tableau.z_matrix = tableau.z_matrix[order]
+    tableau.phase = tableau.phase[order]
+    for j in z_pivots:
+        if np.any(tableau.x_matrix[j, j + 1 : n_qubits]) or np.any(
+            tableau.z_matrix[j, j + 1 : n_qubits]
+        ):
+            circuit_list.append(("H", j))
+            tableau = transform.hadamard_gate(tableau, j)
     # CNOT block
     for j in range(n_qubits):
         for k in range(j + 1, n_qubits):
